@@ -24,6 +24,22 @@ Lemma wf_node_elem : forall P nm attrs sc ch,
   && no_adjacent_text ch && wf_children sc ch.
 Proof. reflexivity. Qed.
 
+Definition decl_sum (sc : list xnsdecl) :=
+  fix sum (l : list xnode) : N := match l with [] => 0 | x :: r => decl_count (Some sc) x + sum r end.
+
+Lemma decl_count_elem : forall P nm attrs sc ch,
+  decl_count P (XElem nm attrs sc ch) = len (or_default (own_decls P sc) []) + decl_sum sc ch.
+Proof. reflexivity. Qed.
+
+Lemma scope_eqb_refl' : forall sc, scope_eqb sc sc = true.
+Proof.
+  assert (Hx : forall x, xstr_eqb x x = true).
+  { induction x as [|b r IH]; [reflexivity|]. cbn [xstr_eqb]. now rewrite N.eqb_refl, IH. }
+  induction sc as [|d r IH]; [reflexivity|].
+  cbn [scope_eqb]. rewrite IH. unfold decl_eqb. rewrite Hx.
+  destruct (xns_prefix d); cbn [opt_str_eqb]; rewrite ?Hx; reflexivity.
+Qed.
+
 Lemma wf_children_forallb : forall sc l, wf_children sc l = forallb (wf_node (Some sc)) l.
 Proof. intros sc l. induction l as [|x r IH]; [reflexivity|]. cbn [wf_children forallb]. now rewrite <- IH. Qed.
 
@@ -61,7 +77,15 @@ Section Scope.
   Let sc := scope_of exts.
   Hypothesis Hscope : scope_ok (Some sc) sc = true.
 
-  Definition WF (n : xnode) : Prop := wf_node (Some sc) n = true /\ is_text n = false.
+  Definition NodeOk (n : xnode) : Prop := wf_node (Some sc) n = true /\ decl_count (Some sc) n = 0.
+  Definition WF (n : xnode) : Prop := NodeOk n /\ is_text n = false.
+
+  Lemma nodes_ok : forall ch, Forall NodeOk ch ->
+    forallb (wf_node (Some sc)) ch = true /\ decl_sum sc ch = 0.
+  Proof.
+    induction 1 as [|c r [Hc Hd] _ [IH1 IH2]]; [split; reflexivity|].
+    cbn [forallb decl_sum]. rewrite Hc, Hd, IH1. split; [reflexivity|]. exact IH2.
+  Qed.
 
   Lemma e57_prefix : match elem_prefix sc (Some E57_URI) with Some _ => true | None => false end = true.
   Proof.
@@ -84,29 +108,32 @@ Section Scope.
     ncname (xn_local nm) = true ->
     match elem_prefix sc (xn_ns nm) with Some _ => true | None => false end = true ->
     Forall attr_good attrs -> distinct_attrs attrs = true ->
-    no_adjacent_text ch = true -> forallb (wf_node (Some sc)) ch = true ->
+    no_adjacent_text ch = true -> Forall NodeOk ch ->
     WF (XElem nm attrs sc ch).
   Proof.
-    intros nm attrs ch Hn Hp Ha Hd Hadj Hch. split; [|reflexivity].
-    rewrite wf_node_elem, Hn, Hscope, Hp, (attrs_ok attrs Ha), Hd, Hadj, wf_children_forallb, Hch. reflexivity.
+    intros nm attrs ch Hn Hp Ha Hd Hadj Hch. destruct (nodes_ok ch Hch) as [Hw Hs].
+    split; [split|reflexivity].
+    - rewrite wf_node_elem, Hn, Hscope, Hp, (attrs_ok attrs Ha), Hd, Hadj, wf_children_forallb, Hw. reflexivity.
+    - rewrite decl_count_elem. cbn [own_decls]. fold sc. rewrite scope_eqb_refl'. cbn [or_default]. rewrite Hs. reflexivity.
   Qed.
 
   Lemma lines_ok : forall ch, Forall WF ch ->
-    no_adjacent_text (lines ch) = true /\ forallb (wf_node (Some sc)) (lines ch) = true.
+    no_adjacent_text (lines ch) = true /\ Forall NodeOk (lines ch).
   Proof.
     intros ch H. unfold lines.
+    assert (Hnl : NodeOk nl) by (split; reflexivity).
     assert (G : forall l, Forall WF l ->
               no_adjacent_text (nl :: flat_map (fun c => [c; nl]) l) = true /\
-              forallb (wf_node (Some sc)) (flat_map (fun c => [c; nl]) l) = true).
-    { induction 1 as [|c r [Hc Ht] _ [IH1 IH2]]; [split; reflexivity|].
+              Forall NodeOk (flat_map (fun c => [c; nl]) l)).
+    { induction 1 as [|c r [Hc Ht] _ [IH1 IH2]]; [split; [reflexivity|constructor]|].
       cbn [flat_map app]. split.
       - cbn [no_adjacent_text]. cbn [no_adjacent_text] in IH1. rewrite Ht.
         cbn [is_text andb negb]. rewrite andb_false_r. cbn [negb andb].
         destruct (flat_map (fun c0 => [c0; nl]) r) eqn:E; [reflexivity|].
         exact IH1.
-      - cbn [forallb]. rewrite Hc, IH2. reflexivity. }
+      - constructor; [exact Hc|]. constructor; [exact Hnl|exact IH2]. }
     destruct (G ch H) as [G1 G2]. split; [exact G1|].
-    cbn [forallb]. rewrite G2. reflexivity.
+    constructor; [exact Hnl|exact G2].
   Qed.
 
   Definition e57_name (name : xstr) : Prop := ncname name = true.
@@ -125,14 +152,14 @@ Section Scope.
   Proof.
     intros name attrs t Hn Ha Hd Ht.
     apply WF_elem; [exact Hn|apply e57_prefix|exact Ha|exact Hd|reflexivity|].
-    cbn [forallb wf_node]. now rewrite Ht.
+    constructor; [|constructor]. split; [cbn [wf_node]; exact Ht|reflexivity].
   Qed.
 
   Lemma WF_empty : forall name attrs,
     ncname name = true -> Forall attr_good attrs -> distinct_attrs attrs = true -> WF (el sc name attrs []).
   Proof.
     intros name attrs Hn Ha Hd.
-    apply WF_elem; [exact Hn|apply e57_prefix|exact Ha|exact Hd|reflexivity|reflexivity].
+    apply WF_elem; [exact Hn|apply e57_prefix|exact Ha|exact Hd|reflexivity|constructor].
   Qed.
 
   Lemma good_ty : forall T, chars_ok T = true -> attr_good (ty T).
@@ -282,9 +309,6 @@ Section Scope.
   Qed.
 
   (** ** prototype records *)
-  Lemma std_name_ncname : forall n, match n with Unknown _ _ => True | _ => ncname (std_record_name n) = true end.
-  Proof. destruct n; try reflexivity. exact I. Qed.
-
   Lemma ext_uri_in_scope : forall ns u, ext_uri exts ns = Some u ->
     match elem_prefix sc (Some u) with Some _ => true | None => false end = true.
   Proof.
@@ -314,19 +338,19 @@ Section Scope.
     - apply WF_elem; auto.
       + destruct mn as [f1|], mx as [f2|]; cbn [opt_ok app] in *; attrs; now apply f32_chars_ok.
       + destruct mn, mx; reflexivity.
-      + cbn [forallb wf_node]. destruct mn as [f1|]; [|reflexivity].
-        cbn [opt_ok] in *. rewrite (plain_text_ok (f32_text f1)); [reflexivity|]. now apply plain_text_forall.
+      + constructor; [|constructor]. split; [|reflexivity]. cbn [wf_node]. destruct mn as [f1|]; [|reflexivity].
+        cbn [opt_ok] in *. apply plain_text_ok. now apply plain_text_forall.
     - apply WF_elem; auto.
       + destruct mn as [f1|], mx as [f2|]; cbn [opt_ok app] in *; attrs; now apply f64_chars_ok.
       + destruct mn, mx; reflexivity.
-      + cbn [forallb wf_node]. destruct mn as [f1|]; [|reflexivity].
-        cbn [opt_ok] in *. rewrite (plain_text_ok (f64_text f1)); [reflexivity|]. now apply plain_text_forall.
+      + constructor; [|constructor]. split; [|reflexivity]. cbn [wf_node]. destruct mn as [f1|]; [|reflexivity].
+        cbn [opt_ok] in *. apply plain_text_ok. now apply plain_text_forall.
     - apply WF_elem; auto.
       + attrs; first [apply dec_z_chars_ok | now apply f64_chars_ok].
-      + cbn [forallb wf_node]. now rewrite dec_z_text_ok.
+      + constructor; [|constructor]. split; [apply dec_z_text_ok|reflexivity].
     - apply WF_elem; auto.
       + attrs; apply dec_z_chars_ok.
-      + cbn [forallb wf_node]. now rewrite dec_z_text_ok.
+      + constructor; [|constructor]. split; [apply dec_z_text_ok|reflexivity].
   Qed.
 
   Lemma WF_points : forall pc,
